@@ -10,6 +10,7 @@ CONFIGS_THOROUGH = ["serde"]
 ALL_WEIGHTS_THOROUGH = True
 
 import rules_c04
+from facts import span_str
 import values as V
 from absint import Interp, Vc, usize
 from axioms import Axioms, F32_MAX, F64_MAX
@@ -57,7 +58,7 @@ def run(chk, F, tier):
     ax = Axioms(F)
     insts = [i for i in F.instances if i.get("full") and i["path"] == NEW]
     chk.floor("instances of WeightedAliasIndex::new", len(insts), 4)
-    n = 0
+    n = ndec = 0
     for inst in insts:
         w = F.types[inst["targs"][0]]
         for ln in (0, 1, 3, 7, 300):
@@ -76,16 +77,69 @@ def run(chk, F, tier):
                     want = {"InsufficientNonZero"}
                 else:
                     want = None
+                unk = [x for x in ip.imprecise if x.startswith(("unknown call", "indirect call", "call of unknown", "step limit", "recursion"))]
                 if want is not None:
                     if real == want:
                         chk.ok("validation", key + " -> " + "/".join(sorted(want)))
+                        ndec += 1
+                    elif unk and want <= real:
+                        chk.unproved_note("validation", key, "not decided: the abstract run met code it has no model for (%s); outcomes %s" % (unk[0], sorted(outs)))
                     else:
                         chk.violation("validation", key, "%s returns %s, documented: %s" % (key, sorted(outs), sorted(want)))
                 else:
                     errs = real & {"InvalidInput", "InvalidWeight", "InsufficientNonZero"}
-                    if errs or "Ok" not in real:
+                    if (errs or "Ok" not in real) and unk and "Ok" in real:
+                        chk.unproved_note("validation", key, "not decided: the abstract run met code it has no model for (%s); outcomes %s" % (unk[0], sorted(outs)))
+                    elif errs or "Ok" not in real:
                         chk.violation("validation", key, "%s returns %s for a valid weight vector (documented: Ok)" % (key, sorted(outs)))
                     else:
                         chk.ok("validation", key + " -> Ok")
+                        ndec += 1
     chk.floor("validation cases", n, 60)
+    chk.floor("validation cases decided", ndec, 60)
+    # ---- position-sensitive vectors: one valid head followed by invalid weights, and one invalid head followed by valid weights —
+    # a validation that looks only at the first element, or only at the extremes of a fold seeded with it, accepts one of them
+    npos = 0
+    for inst in insts:
+        w = F.types[inst["targs"][0]]
+        for ln in (3, 7):
+            cells = cells_for(w, ln)
+            good = next((v for c, v, cls in cells if cls == "ok" and c in ("small", "(0, MAX/len)")), None)
+            if good is None:
+                continue
+            for cname, val, cls in cells:
+                if cls != "bad":
+                    continue
+                for label, vec in (("[ok, %s, ...]" % cname, Vc(val, usize(ln), head=good)), ("[%s, ok, ...]" % cname, Vc(good, usize(ln), head=val))):
+                    ip = Interp(F, ax)
+                    rv, st = ip.run_root(inst, [vec])
+                    outs = rules_c04.outcome_names(F, rv) if st is not None else {"diverges"}
+                    real = (outs or set()) - {"panic"}
+                    key = "new<%s>(%s, len %d)" % (w["s"], label, ln)
+                    npos += 1
+                    if real == {"InvalidWeight"}:
+                        chk.ok("validation", key + " -> InvalidWeight", nontrivial=(npos <= 6))
+                    else:
+                        chk.violation("validation", "pos:" + key, "%s returns %s, documented: InvalidWeight (an invalid weight at that position is not rejected)" % (key, sorted(outs)))
+    chk.floor("position-sensitive validation cases", npos, 40)
+    # ---- the weight sum: every `AliasableWeight::sum` implementation (and what it delegates to) adds up every element.  Necessary
+    # condition decided exactly: on the all-ones vector of exact length n the result is n (no rounding, any summation order).
+    import rules_c11
+    nsum = 0
+    for inst in F.instances:
+        if not (inst.get("full") and inst.get("local") and inst["arg_count"] == 1):
+            continue
+        if not (inst["path"].endswith("AliasableWeight>::sum") or inst["path"] == "weighted::weighted_alias::AliasableWeight::sum" or
+                (inst["path"].startswith("weighted::weighted_alias::") and inst["path"].rsplit("::", 1)[-1].split("<")[0].endswith("sum"))):
+            continue
+        n_ok, fail = rules_c11.ones_exact(F, ax, inst)
+        nsum += 1
+        if fail and fail.startswith("imprecise"):
+            chk.unproved_note("weight-sum", inst["key"], "could not be evaluated exactly (%s): not decided" % fail)
+        elif fail:
+            chk.violation("weight-sum", inst["path"] + "|" + F.types[inst["locals"][0]["ty"]]["s"], "%s does not add up every weight: %s (weight_sum would be too small: "
+                          "wrong odds, spurious InsufficientNonZero)" % (inst["key"], fail), where=span_str(inst.get("span")))
+        else:
+            chk.ok("weight-sum", "%s: exact on the all-ones vector for %d lengths (0..69, 100, 127..129, 255..257, 300, 1000 where representable)" % (inst["key"], n_ok), nontrivial=(nsum <= 3))
+    chk.floor("weight-sum implementations", nsum, 6)
     chk.notes.append("index operations inside the alias construction are not discharged (data-structure invariant): reported, not alarmed")
